@@ -160,3 +160,31 @@ def red_case(net, mode="hydraulics"):
 def apply_flags(net, flags, bits):
     for (tbl, col, i), bit in zip(flags, bits):
         net[tbl].at[i, col] = bool(bit)
+
+
+def restart_case(net, rng):
+    """drive the real pipeflow._restart_connectivity_check: a 'component' switches some active rows off in the active
+    pit; returns the Coq literal or None"""
+    n, b = idx()
+    pf = drive.ppipeflow()
+    L = net["_lookups"]
+    npit, bpit = net["_pit"]["node"], net["_pit"]["branch"]
+    anp, abp = net["_active_pit"]["node"], net["_active_pit"]["branch"]
+    if rng.random() < 0.8 and len(abp):
+        for _ in range(rng.randint(1, 2)):
+            abp[rng.randrange(len(abp)), b.ACTIVE] = 0.0
+    if rng.random() < 0.2 and len(anp) > 2:
+        anp[rng.randrange(len(anp)), n.ACTIVE] = 0.0
+    st = ("{| r_pn := %s; r_pb := %s; r_mn := %s; r_mb := %s; r_an := %s; r_ab := %s |}"
+          % (cm.bl(npit[:, n.ACTIVE]), cm.bl(bpit[:, b.ACTIVE]), cm.bl(L["node_active_hydraulics"]),
+             cm.bl(L["branch_active_hydraulics"]), cm.bl(anp[:, n.ACTIVE]), cm.bl(abp[:, b.ACTIVE])))
+    s = drive.psetup()
+    try:
+        flag = pf._restart_connectivity_check(net)
+    except s.PipeflowNotConverged:
+        return None
+    L = net["_lookups"]
+    return ("{| rs_state := %s; rs_masks := (%s, %s); rs_flag := %s; rs_pn := %s; rs_pb := %s; rs_an := %s; rs_ab := %s |}"
+            % (st, cm.bl(L["node_active_hydraulics"]), cm.bl(L["branch_active_hydraulics"]), cbool(bool(flag)),
+               cm.bl(net["_pit"]["node"][:, n.ACTIVE]), cm.bl(net["_pit"]["branch"][:, b.ACTIVE]),
+               cm.bl(net["_active_pit"]["node"][:, n.ACTIVE]), cm.bl(net["_active_pit"]["branch"][:, b.ACTIVE])))
